@@ -161,6 +161,57 @@ def build(repo):
             && r.servers.queues() == self.servers.queues().push(q),
         r.mux.accept@ == self.mux.accept@,
 """)
+
+    # ---- rpc::Server::serve: one request per reserved stream, received under the handler's request-size limit (C15 / C10)
+    U.raw(r"""
+// ---------------- prelude for the per-request task of rpc::Server::serve ----------------
+#[verifier::external_body] pub struct AnyhowError { _p: u8 }
+pub trait RpcMsg: Sized { type Req; type Resp; }                               // R-type: the message types of rpc::Rpc
+#[verifier::external_body] #[verifier::reject_recursive_types(R)] #[verifier::reject_recursive_types(H)]
+pub struct Server<R: RpcMsg, H> { _p: core::marker::PhantomData<(R, H)> }       // rpc::Server<R, H>: handler + queue (opaque)
+impl<R: RpcMsg, H> Server<R, H> {
+    pub uninterp spec fn spec_max_req_size(&self) -> usize;                     // what this server's Handler::max_req_size() returns
+    #[verifier::external_body] pub fn handler_max_req_size(&self) -> (r: usize) ensures r == self.spec_max_req_size() { unimplemented!() }
+    // Handler::handle: one invocation per reserved stream (W-ghost budget)
+    #[verifier::external_body]
+    pub async fn handler_handle(&self, ctx: &Ctx, req: R::Req, budget: &mut Ghost<int>) -> (r: Result<R::Resp, AnyhowError>)
+        requires old(budget)@ >= 1, ensures final(budget)@ == old(budget)@ - 1 { unimplemented!() }
+}
+#[verifier::external_body] pub struct ReservedStream { _p: u8 }                 // mux::ReservedStream (one paid-for stream of the server's queue)
+#[verifier::external_body] pub struct OpenRead { _p: u8 }
+#[verifier::external_body] pub struct OpenWrite { _p: u8 }
+pub struct OpenStream { pub read: OpenRead, pub write: OpenWrite }
+impl ReservedStream {
+    #[verifier::external_body] pub async fn open(self, ctx: &Ctx) -> (r: Result<Result<OpenStream, AnyhowError>, AnyhowError>) { unimplemented!() }
+}
+// frame::mux_recv_proto (under contract in unit mux): the message is buffered up to `max_size` bytes. Here: the limit handed over must be
+// the one the handler declares ("never buffers more than its configured limits")
+#[verifier::external_body]
+pub async fn mux_recv_req<R: RpcMsg, H>(srv: &Server<R, H>, ctx: &Ctx, read: &mut OpenRead, max_size: usize) -> (r: Result<(R::Req, usize), AnyhowError>)
+    requires max_size <= srv.spec_max_req_size() { unimplemented!() }
+#[verifier::external_body]
+pub async fn mux_send_resp<R: RpcMsg>(ctx: &Ctx, write: &mut OpenWrite, resp: &R::Resp) -> (r: Result<usize, AnyhowError>) { unimplemented!() }
+pub trait VerifCtxA<T> { fn context(self, c: ()) -> Result<T, AnyhowError>; }
+impl<T> VerifCtxA<T> for Result<T, AnyhowError> {
+    #[verifier::external_body] fn context(self, c: ()) -> (r: Result<T, AnyhowError>) ensures r.is_ok() == self.is_ok(), self.is_ok() ==> r == Result::<T, AnyhowError>::Ok(self->Ok_0) { unimplemented!() }
+}
+""", label="prelude rpc server", props=["C15", "C10"])
+    U.lift_closure(F_RPC, "impl<R: Rpc, H: Handler<R>> ServerTrait for Server<R, H> :: fn serve", "async {\n let mut stream = stream.open(ctx).await??;", "serve_one_request",
+                   "<R: RpcMsg, H>(this: &Server<R, H>, ctx: &Ctx, stream: ReservedStream) -> (r: Result<(), AnyhowError>)",
+                   block=True, fn_kw="async fn", brace_at=1, props=["C15", "C10"],
+                   proof_at_start="let mut verif_budget: Ghost<int> = Ghost(1);   /* W-ghost: one request may be served on one reserved stream */",
+                   subs=[("let recv_time = ctx.now();", ""), ("let process_time = ctx.now();", ""),
+                         ("let _guard = RPC_METRICS.$X;", ""),
+                         ("RPC_METRICS.$X;", "", None),
+                         ("let size_labels = $X;", ""), ("let resp_size_labels = $X;", ""), ("let inflight_labels = $X;", ""),
+                         ("let mut server_process_labels = $X;", ""), ("let mut recv_send_labels = $X;", ""),
+                         ("server_process_labels.set_result(&res);", ""), ("recv_send_labels.set_result(&res);", ""),
+                         ("frame::mux_recv_proto::<R::Req>($A)", "mux_recv_req::<R, H>(this, $A)   /* R-stub: precondition = the handler's own limit */"),
+                         ("self.handler.max_req_size()", "this.handler_max_req_size()", None),      # any count: a change that no longer asks the handler must be decided, not lose the anchor
+                         ("self.handler.handle($A)", "this.handler_handle($A, &mut verif_budget)   /* W-ghost */"),
+                         ("frame::mux_send_proto(ctx, &mut stream.write, &res?)", "mux_send_resp::<R>(ctx, &mut stream.write, &res?)"),
+                         ("anyhow::Ok(())", "Ok(())")],
+                   spec="    ensures true,     // the obligations are the preconditions of mux_recv_req (size limit) and handler_handle (one request per reserved stream)\n")
     U.raw(PRELUDE_RUN, label="stubs ReusableStream::run")
     U.lift_closure(F_RS, "impl ReusableStream :: fn run", "scope::run!(ctx, |ctx, s| async {", "reusable_stream_run_body",
                    "(this: ReusableStream, ctx: &Ctx, s: &Scope) -> (r: Result<(), RunError>)",
